@@ -21,6 +21,12 @@ Proof.
   rewrite !dec_octet_noslash by lia. reflexivity.
 Qed.
 
+Lemma labels_in_range : forall ls, Forall (fun l => l < 1048576) ls -> existsb (fun l => 1048575 <? l) ls = false.
+Proof.
+  intros ls H. induction H as [|l ls Hl _ IH]; [reflexivity|]. cbn [existsb]. rewrite IH.
+  destruct (N.ltb_spec 1048575 l); [lia|reflexivity].
+Qed.
+
 Lemma labels_mod_id : forall ls, Forall (fun l => l < 1048576) ls -> map (fun l => l mod 1048576) ls = ls.
 Proof.
   intros ls H. induction H as [|l ls Hl _ IH]; [reflexivity|]. cbn [map]. rewrite IH. f_equal. lia.
@@ -59,34 +65,37 @@ Section NlriProofs.
     intros n [Hrt Hn4] Hns Hwf. destruct n as [a m|a m|ls a m|ls a m|ls d a m|ls d a m]; cbn [wf_nlri] in Hwf;
       cbn [nlri_to_api net_from_api].
     5: { destruct Hwf as [Ha [Hm [Hd [Hne [Hl Hb]]]]]. rewrite rd_roundtrip, ip4_roundtrip by assumption.
-         destruct (N.ltb_spec 32 m); [lia|]. destruct ls as [|l ls]; [contradiction|]. cbn [length Nat.eqb orb].
+         destruct (N.ltb_spec 32 m); [lia|]. rewrite (labels_in_range ls Hl). destruct ls as [|l ls]; [contradiction|]. cbn [length Nat.eqb orb].
          destruct (N.ltb_spec 255 (24 * N.of_nat (S (length ls)) + 64 + m)); [cbn [length] in Hb; lia|].
-         rewrite labels_mod_id by exact Hl. reflexivity. }
+         reflexivity. }
     5: { destruct Hwf as [Ha [Hm [Hd [Hne [Hl Hb]]]]]. rewrite rd_roundtrip, Hn4, Hrt by assumption.
-         destruct (N.ltb_spec 128 m); [lia|]. destruct ls as [|l ls]; [contradiction|]. cbn [length Nat.eqb orb].
+         destruct (N.ltb_spec 128 m); [lia|]. rewrite (labels_in_range ls Hl). destruct ls as [|l ls]; [contradiction|]. cbn [length Nat.eqb orb].
          destruct (N.ltb_spec 255 (24 * N.of_nat (S (length ls)) + 64 + m)); [cbn [length] in Hb; lia|].
-         rewrite labels_mod_id by exact Hl. reflexivity. }
+         reflexivity. }
     - destruct Hwf as [Ha Hm]. rewrite ip4_noslash, ip4_roundtrip by exact Ha.
       destruct (N.ltb_spec 255 m); [lia|]. destruct (N.ltb_spec 32 m); [lia|]. reflexivity.
     - destruct Hwf as [Ha Hm]. rewrite Hns, Hn4, Hrt by exact Ha.
       destruct (N.ltb_spec 255 m); [lia|]. destruct (N.ltb_spec 128 m); [lia|]. reflexivity.
     - destruct Hwf as [Ha [Hm [Hne [Hl Hb]]]]. rewrite ip4_roundtrip by exact Ha.
-      destruct (N.ltb_spec 32 m); [lia|]. destruct ls as [|l ls]; [contradiction|]. cbn [length Nat.eqb orb].
+      destruct (N.ltb_spec 32 m); [lia|]. rewrite (labels_in_range ls Hl). destruct ls as [|l ls]; [contradiction|]. cbn [length Nat.eqb orb].
       destruct (N.ltb_spec 255 (24 * N.of_nat (S (length ls)) + m)); [cbn [length] in Hb; lia|].
-      rewrite labels_mod_id by exact Hl. reflexivity.
+      reflexivity.
     - destruct Hwf as [Ha [Hm [Hne [Hl Hb]]]]. rewrite Hn4, Hrt by exact Ha.
-      destruct (N.ltb_spec 128 m); [lia|]. destruct ls as [|l ls]; [contradiction|]. cbn [length Nat.eqb orb].
+      destruct (N.ltb_spec 128 m); [lia|]. rewrite (labels_in_range ls Hl). destruct ls as [|l ls]; [contradiction|]. cbn [length Nat.eqb orb].
       destruct (N.ltb_spec 255 (24 * N.of_nat (S (length ls)) + m)); [cbn [length] in Hb; lia|].
-      rewrite labels_mod_id by exact Hl. reflexivity.
+      reflexivity.
   Qed.
 
-  Lemma labels_wf : forall ls m, Nat.eqb (length ls) 0 = false ->
-    (255 <? 24 * N.of_nat (length ls) + m) = false -> wf_labels (map (fun l => l mod 1048576) ls) m.
+  Lemma labels_wf : forall ls m, existsb (fun l => 1048575 <? l) ls = false -> Nat.eqb (length ls) 0 = false ->
+    (255 <? 24 * N.of_nat (length ls) + m) = false -> wf_labels ls m.
   Proof.
-    intros ls m Hne Hb. repeat split.
+    intros ls m Hr Hne Hb. repeat split.
     - destruct ls; [discriminate|]. discriminate.
-    - apply Forall_forall. intros x Hx. apply in_map_iff in Hx. destruct Hx as [l [<- _]]. lia.
-    - rewrite map_length. lia.
+    - apply Forall_forall. intros x Hx. destruct (N.ltb_spec 1048575 x) as [Hgt|]; [|lia].
+      exfalso. assert (E : existsb (fun l => 1048575 <? l) ls = true).
+      { apply existsb_exists. exists x. split; [exact Hx|]. lia. }
+      rewrite E in Hr. discriminate.
+    - lia.
   Qed.
 
   Theorem net_from_api_wf : forall x n, v6_range -> api_nlri_in_range x -> net_from_api v6r x = Some n -> wf_nlri n.
@@ -96,16 +105,18 @@ Section NlriProofs.
          destruct (rd_from_api d) as [d'|] eqn:Ed; [|discriminate]. pose proof (rd_from_api_wf d d' Hin Ed) as Hd.
          destruct (ip4_of_string s) as [a|] eqn:E4.
          + destruct (N.ltb_spec 32 len); [discriminate|]. cbn [orb] in H.
+           destruct (existsb _ ls) eqn:Ex; [discriminate|]. cbn [orb] in H.
            destruct (Nat.eqb (length ls) 0) eqn:El; [discriminate|]. cbn [orb] in H.
            destruct (255 <? _) eqn:Eb in H; [discriminate|]. injection H as <-.
            split; [eapply ip4_of_string_lt; eassumption|]. split; [lia|]. split; [exact Hd|].
-           apply labels_wf; [exact El|]. rewrite N.add_assoc. exact Eb.
+           apply labels_wf; [exact Ex|exact El|]. rewrite N.add_assoc. exact Eb.
          + destruct (v6r s) as [a|] eqn:E6; [|discriminate].
            destruct (N.ltb_spec 128 len); [discriminate|]. cbn [orb] in H.
+           destruct (existsb _ ls) eqn:Ex; [discriminate|]. cbn [orb] in H.
            destruct (Nat.eqb (length ls) 0) eqn:El; [discriminate|]. cbn [orb] in H.
            destruct (255 <? _) eqn:Eb in H; [discriminate|]. injection H as <-.
            split; [eapply Hrg; eassumption|]. split; [lia|]. split; [exact Hd|].
-           apply labels_wf; [exact El|]. rewrite N.add_assoc. exact Eb. }
+           apply labels_wf; [exact Ex|exact El|]. rewrite N.add_assoc. exact Eb. }
     - destruct (existsb _ s); [discriminate|].
       destruct (ip4_of_string s) as [a|] eqn:E4.
       + destruct (N.ltb_spec 255 len); [discriminate|]. destruct (N.ltb_spec 32 len); [discriminate|].
@@ -115,11 +126,13 @@ Section NlriProofs.
         injection H as <-. split; [eapply Hrg; eassumption|lia].
     - destruct (ip4_of_string s) as [a|] eqn:E4.
       + destruct (N.ltb_spec 32 len); [discriminate|]. cbn [orb] in H.
+        destruct (existsb _ ls) eqn:Ex; [discriminate|]. cbn [orb] in H.
         destruct (Nat.eqb (length ls) 0) eqn:El; [discriminate|]. cbn [orb] in H.
         destruct (255 <? _) eqn:Eb in H; [discriminate|]. injection H as <-.
         split; [eapply ip4_of_string_lt; eassumption|]. split; [lia|]. apply labels_wf; assumption.
       + destruct (v6r s) as [a|] eqn:E6; [|discriminate].
         destruct (N.ltb_spec 128 len); [discriminate|]. cbn [orb] in H.
+        destruct (existsb _ ls) eqn:Ex; [discriminate|]. cbn [orb] in H.
         destruct (Nat.eqb (length ls) 0) eqn:El; [discriminate|]. cbn [orb] in H.
         destruct (255 <? _) eqn:Eb in H; [discriminate|]. injection H as <-.
         split; [eapply Hrg; eassumption|]. split; [lia|]. apply labels_wf; assumption.
